@@ -116,6 +116,10 @@ def alterations_for(c, rng, known_bits, n_masks, n_combo):
     for i in range(len(fields)):
         for j in range(i + 1, len(fields)):
             alts.append(("swap", fields[i], fields[j]))
+    # the other numeric header words ("every other header field exactly")
+    for f, deltas in (("co_nlocals", (-1, 1, 2)), ("co_stacksize", (-1, 1, 40)), ("co_firstlineno", (-1, 1, 1000))):
+        for d in deltas:
+            alts.append(("count", f, d))
     for _ in range(n_combo):
         alts.append(("combo", 1 << rng.randint(0, 30), rng.choice(fields), rng.choice([-1, 1, 2])))
     return alts
